@@ -4,5 +4,7 @@ MCCfgSet == {[x |-> 0]}
 MCOuts == {"ok", "e1", "panic"}
 MCKeys == {1, 2}
 Inv == OneInnerPerKey /\ WaitersFollowLiveOrResolved
+\* transition tour: every transition of the (small) model, printed with the level of its source state
+TourDump == PrintT(<<"EDGE", TLCGet("level"), ToJson([f |-> view, t |-> view', cfg |-> cfg, ev |-> ev'])>>)
 GenPrint == PrintT(<<"GEN", TLCGet("level"), ToJson([cfg |-> cfg, ev |-> ev])>>)
 =============================================================================
